@@ -21,7 +21,8 @@ class StaleContract(Exception):
     """A sidecar contract no longer matches the shape of the code (exit 2, undecided)."""
 
 
-_QCACHE = {}      # ast id -> bool, cleared at the start of every path (terms of a path stay alive while it is used)
+_QCACHE = {}      # ast id -> bool, cleared at the start of every path
+_QKEEP = []       # the terms has_quant was asked about: kept alive until the cache is cleared (z3 reuses ids of freed terms)
 
 
 def has_quant(t):
@@ -31,6 +32,7 @@ def has_quant(t):
     r = memo.get(i0)
     if r is not None:
         return r
+    _QKEEP.append(t)
     stack = [(t, False)]
     while stack:
         u, done = stack.pop()
@@ -435,6 +437,7 @@ class PathResult:
 
 def run_path(run, decisions, fmodel, todo):
     _QCACHE.clear()
+    del _QKEEP[:]
     c = Ctx(decisions, fmodel)
     c.todo = todo
     Ctx.cur = c
